@@ -91,7 +91,7 @@ def sameTimes (a b : List (Float × Float)) : Bool :=
   a.length == b.length && (a.zip b).all fun (x, y) => sameF x.1 y.1 && sameF x.2 y.2
 
 /-- C09 oracle on the implementation's durations `d` for filled times `ft` (frames), `nstate` states per label. -/
-def alignOracle (nstate : Nat) (ft : List (Float × Float)) (d : List Nat) : Option String := Id.run do
+def alignOracle (nstate : Nat) (ps : List (Jb.MeanVari Float)) (ft : List (Float × Float)) (d : List Nat) : Option String := Id.run do
   let n := ft.length
   if d.length != n * nstate then
     return some s!"{n} labels × {nstate} states but {d.length} state durations returned (labels vanished)"
@@ -115,6 +115,11 @@ def alignOracle (nstate : Nat) (ft : List (Float × Float)) (d : List Nat) : Opt
           return some s!"label {i}: group cannot fit ({r} < {frames}+{m}), every state must get exactly 1 frame, got {grp}"
       frames := upto
       groupStart := i + 1
+  -- trailing labels without an end time fall back to their model durations: max(1, round(mean)) per state
+  for k in [groupStart * nstate : n * nstate] do
+    let want := max 1 (ps.getD k ⟨0.0, 0.0⟩).mean.round.toUSize.toNat
+    if d.getD k 0 != want then
+      return some s!"trailing label {k / (max nstate 1)} has no end time: state {k} must fall back to its model duration {want}, got {d.getD k 0}"
   return none
 
 def runAlign : P Verdict := do
@@ -145,7 +150,9 @@ def runAlign : P Verdict := do
     check (sameTimes mt ift) s!"Labels::times model={mt} impl={ift}",
     check (sameOut mout iout) s!"create_with_alignment model={showOut mout} impl={showOut iout}" ]
   let orc := match iout with
-    | .ok d => unitOracle <|> alignOracle nstate ift d
+    -- known / unknown ends as the annotation defines them (given directly or inherited from the next start):
+    -- the gap-filled times of the model, not the times the library reports
+    | .ok d => unitOracle <|> alignOracle nstate ps mt d
     | .panic s => some s!"panicked at {s}"
   let known := ift.filter (fun t => t.2 ≥ 0.0) |>.length
   let unknown := n - known
